@@ -77,7 +77,7 @@ let enumerate (f : tk list -> unit) : unit =
         (* operand forms *)
         let rec forms i acc =
           if i = n then opsel 0 (List.rev acc) []
-          else List.iter (fun form -> forms (i + 1) (form :: acc)) [ 0; 1; 2; 3; 4 ]
+          else List.iter (fun form -> forms (i + 1) (form :: acc)) [ 0; 1; 2; 3; 4; 5; 6 ]
         and opsel j operands chosen =
           if j = n - 1 then emit operands (List.rev chosen)
           else List.iter (fun o -> opsel (j + 1) operands (o :: chosen)) (ops k)
@@ -88,6 +88,16 @@ let enumerate (f : tk list -> unit) : unit =
             | 1 -> [ LP; atoms.(i mod Array.length atoms); RP ]
             | 2 -> [ LP ] @ inner k @ [ RP ]
             | 3 -> [ LP ] @ inner (other k) @ [ RP ]
+            | 5 -> (* a parenthesised chain of three operands of the same kind *)
+              (match k with
+               | `App -> [ LP; Id 2; Id 1; Id 0; RP ]
+               | `Mul -> [ LP; Num 100; Op '/'; Num 10; Op '/'; Num 5; RP ]
+               | `Add -> [ LP; Num 5; Op '-'; Num 2; Op '-'; Num 1; RP ])
+            | 6 -> (* nested parentheses inside a parenthesised chain *)
+              (match k with
+               | `App -> [ LP; LP; Id 2; Id 1; RP; LP; Id 0; RP; RP ]
+               | `Mul -> [ LP; LP; Num 100; Op '/'; Num 10; RP; Op '*'; LP; Num 5; RP; RP ]
+               | `Add -> [ LP; Num 9; Op '-'; LP; Num 5; Op '-'; Num 2; RP; Op '-'; LP; Num 1; RP; RP ])
             | _ -> if k = `App then [ atoms.((i + 1) mod Array.length atoms) ] else [ Op '-'; atoms.(i mod Array.length atoms) ] in
           let toks = List.concat (List.mapi (fun i form ->
               (if i = 0 then [] else List.nth chosen (i - 1)) @ operand i form) operands) in
@@ -95,3 +105,20 @@ let enumerate (f : tk list -> unit) : unit =
           (try ignore (parse toks); f toks with Stuck -> ()) in
         forms 0 []
       done) kinds
+
+(* random expressions of the chain sublanguage with parentheses at random depths *)
+let rec random_huge (r : Rng.t) (depth : int) : tk list =
+  let n = 1 + Rng.int r 3 in
+  List.concat (List.init n (fun i -> (if i = 0 then [] else [ Op (if Rng.bool r then '+' else '-') ]) @ random_large r depth))
+and random_large (r : Rng.t) (depth : int) : tk list =
+  if Rng.chance r 1 8 then Op '-' :: random_large r depth else random_medium r depth
+and random_medium (r : Rng.t) (depth : int) : tk list =
+  let n = 1 + Rng.int r 3 in
+  List.concat (List.init n (fun i -> (if i = 0 then [] else [ Op (if Rng.bool r then '*' else '/') ]) @
+                                     (if i > 0 && Rng.chance r 1 10 then Op '-' :: random_small r depth else random_small r depth)))
+and random_small (r : Rng.t) (depth : int) : tk list =
+  let n = if Rng.chance r 2 3 then 1 else 2 + Rng.int r 2 in
+  List.concat (List.init n (fun _ -> random_atom r depth))
+and random_atom (r : Rng.t) (depth : int) : tk list =
+  if depth > 0 && Rng.chance r 2 5 then [ LP ] @ random_huge r (depth - 1) @ [ RP ]
+  else if Rng.bool r then [ Id (Rng.int r 4) ] else [ Num (Rng.int r 20) ]
